@@ -330,6 +330,41 @@ fn check(ctx: &Ctx, c: &Case) -> PResult {
             }
         }
     }
+    // model-free adversary: the returned coordinates (or one internal wire)
+    // decided by the prover, inputs kept, all other wires re-solved row by row
+    // (arithmetic rows; a curve-addition row that breaks ends the attempt)
+    {
+        let (first_gadget_wit, _) = g.op_wits(comp_op);
+        let mut inputs: Vec<usize> = (0..first_gadget_wit).collect();
+        if op == 5 || op == 3 {
+            // the scalar / the selection bit is allocated by the harness op
+            // itself (first witness): it is an input of the component
+            inputs.push(first_gadget_wit);
+        }
+        let other = curve::gmul(&(c.r.0 + F::from(3u64)));
+        let neg = curve::neg(&want);
+        for (name, fx, fy) in [("another subgroup point", other.0, other.1), ("the negated result", neg.0, neg.1), ("x + 1", want.0 + F::one(), want.1)] {
+            if (fx, fy) == want || inputs.contains(&rx) || inputs.contains(&ry) {
+                continue;
+            }
+            let mut pins: Vec<(usize, F)> = inputs.iter().map(|i| (*i, g.wit[*i])).collect();
+            pins.push((rx, fx));
+            pins.push((ry, fy));
+            ctx.add_evals(1);
+            ctx.label("adversary: propagation from forged result coordinates");
+            if let Some(msg) = gadget::propagation_attack(&g, &pins, c.seed, &format!("{} ({cls}), returned point forced to {name}", OPS[op as usize]), |_| true)? {
+                return Err(Fail::new("curve-resolved-wires-accepted", msg));
+            }
+        }
+        if matches!(op, 3 | 4 | 5) {
+            let (k, hit) = gadget::wire_perturbation_attacks(&g, comp_op, &inputs, 4, c.seed ^ 0xc12, c.seed, &format!("{} ({cls})", OPS[op as usize]), |asg| (asg[rx], asg[ry]) != want)?;
+            ctx.add_evals(k);
+            ctx.label_n("adversary: single-wire perturbation + propagation", k);
+            if let Some(msg) = hit {
+                return Err(Fail::new("curve-resolved-wires-accepted", msg));
+            }
+        }
+    }
     // select_identity must reject non-boolean bits
     if op == 3 {
         let (start, _) = g.op_wits(comp_op);
@@ -363,6 +398,6 @@ pub fn props() -> Vec<(Box<dyn PropDyn>, u32, u32)> {
 }
 
 pub fn describe(ctx: &Ctx) {
-    ctx.rule("cases: component in {add, sub, neg, select_identity, select_point, mul_point} x subgroup points P=[k1]G, Q in {random, P, -P, identity} (k in {0, 1, r_J-1, small, random}) x scalars {0, 1, r_J-1, r_J, 2^252-1, small, random < 2^252} x bits {0, 1, 2, -1}; inputs enter as witnesses with assert_torsion_free_point. Oracle: affine twisted-Edwards law written in the harness (not dusk-jubjub's group code); satisfiability by the reference evaluator; adversaries {wires of other inputs with the inputs put back, forged x1*y2, another curve point / x3+-1 / y3+-1 / negated coordinates as the sum, non-boolean select bit}. non-trivial = every case; distinct by full case");
+    ctx.rule("cases: component in {add, sub, neg, select_identity, select_point, mul_point} x subgroup points P=[k1]G, Q in {random, P, -P, identity} (k in {0, 1, r_J-1, small, random}) x scalars {0, 1, r_J-1, r_J, 2^252-1, small, random < 2^252} x bits {0, 1, 2, -1}; inputs enter as witnesses with assert_torsion_free_point. Oracle: affine twisted-Edwards law written in the harness (not dusk-jubjub's group code); satisfiability by the reference evaluator; adversaries {wires of other inputs with the inputs put back, forged x1*y2, another curve point / x3+-1 / y3+-1 / negated coordinates as the sum, non-boolean select bit, second solution of an addition row for a prover-chosen addend, and the model-free propagation adversary (returned coordinates or one internal wire decided by the prover, inputs kept, arithmetic rows re-solved)}. non-trivial = every case; distinct by full case");
     ctx.assume("mul_point's internal chain is attacked through the transplant adversary and its final addition row only");
 }
